@@ -593,6 +593,13 @@ func (p *peer) respond(st *pstream, tick bool) bool {
 			p.sendRst(st)
 			return false
 		}
+		if sp.RespWaitClose > 0 && st.respSent >= sp.RespWaitClose && st.rt.closeAsked != nil {
+			select {
+			case <-st.rt.closeAsked: // the client side has given the exchange up; its cleanup may still hang
+			default:
+				return false
+			}
+		}
 		remain := sp.RespSize - st.respSent
 		if remain == 0 { // END_STREAM on an empty DATA frame
 			p.wrote(p.fr.WriteData(st.id, true, nil), Event{Type: ftData, Flags: flagEndStream, Sid: st.id})
